@@ -13,11 +13,12 @@
   `parse_term (show t)` to `make_term` for atoms without blanks, integers, variables and `$_`); for INTEGERS the round
   trip is proved outright — `integers_round_trip`: every i64 prints as a text that parses back to it, alone and as an
   argument (`Lemmas/ParseInt.lean`: the model of `str::parse::<i64>` inverts `Nat.repr`, by induction on the digit loop).
-  NESTED COMPLEX TERMS round-trip outright — `complex_terms_round_trip`: for every term built from i64 integers, atoms that
-  are plain words, variables and complex terms `fn(T1, ..., Tn)` of such terms, nested to any depth (`Canon d T t`,
-  `Lemmas/RoundTrip.lean`): the printer writes the term as its canonical text, and the parser reads that text back as the
-  term (by induction on the nesting, from the several-argument theorem of C20).
-  The round trip for the other structured terms (lists, quoted atoms, floats), goals and rules is decided on every run by the
+  NESTED COMPLEX TERMS AND LISTS round-trip outright — `complex_terms_round_trip`, `lists_round_trip`: for every term built
+  from i64 integers, atoms that are words (also with blanks between them), variables, `$_`, complex terms `fn(T1, ..., Tn)`,
+  the empty list, lists `[T1, ..., Tn]` and lists with a tail variable `[T1, ..., Tn | $V]` of such terms, nested to any depth
+  (`Canon d T t`, `Lemmas/RoundTrip.lean`): the printer writes the term as its canonical text, and the parser reads that text
+  back as the term (by induction on the nesting, from the several-argument and several-element theorems of C20).
+  The round trip for the other terms (quoted atoms, floats, atoms with other characters), goals and rules is decided on every run by the
   correspondence suite (grammar stream: text rendered by the harness' own renderer must parse
   to the denoted value, print back as the same text, and re-parse to the same value; the model's
   parser AND printer are compared with the implementation's on each of these cases).
@@ -74,16 +75,32 @@ theorem integers_round_trip (po : POps) (sf : UInt64 → String) (f : Nat) (i : 
   have := makeTerm_int po (f + 1) i hlo hhi
   simp only [this, Res.bind]
 
-/-- NESTED COMPLEX TERMS: a term built from integers, plain-word atoms, variables and complex terms of such terms (`Canon`)
-    is printed as its canonical text T, and T parses back to the term — with any fuel from 2·depth + 2 on.  (`hα`: the
-    `is_alphabetic` of the `std` parameters holds of ASCII letters.) -/
+/-- NESTED COMPLEX TERMS AND LISTS: a term built from integers, atoms that are words (also with blanks between them),
+    variables, `$_`, complex terms, the empty list, lists and lists with a tail variable of such terms (`Canon`) is printed as
+    its canonical text T, and T parses back to the term — with any fuel from 3·depth + 3 on.  (`hα`: the `is_alphabetic` of
+    the `std` parameters holds of ASCII letters.) -/
 theorem complex_terms_round_trip (po : POps) (sf : UInt64 → String) (hα : ∀ c, isLetter c = true → po.isAlpha c = true)
     {d : Nat} {T : Text} {t : Term} (h : Canon d T t) (f : Nat) :
-    (Term.show sf t).toList = T ∧ parseTerm po (2 * d + 2 + f) T = .ok t ∧
-    parseTerm po (2 * d + 2 + f) (Term.show sf t).toList = .ok t := by
+    (Term.show sf t).toList = T ∧ parseTerm po (3 * d + 3 + f) T = .ok t ∧
+    parseTerm po (3 * d + 3 + f) (Term.show sf t).toList = .ok t := by
   have h1 := show_canon sf h
   have h2 := parse_canon po hα h f
   exact ⟨h1, h2, by rw [h1]; exact h2⟩
+
+/-- LISTS, stated on their own: the list of canonical elements `[T1, ..., Tn]` and the list with a tail variable
+    `[T1, ..., Tn | $V]` print as these texts and parse back to the linked nodes `link_front` builds (each node counting the
+    nodes from itself, the node of the tail variable flagged) -/
+theorem lists_round_trip (po : POps) (sf : UInt64 → String) (hα : ∀ c, isLetter c = true → po.isAlpha c = true)
+    {d : Nat} (as : List Text) (ts : List Term) (hne : as ≠ []) (hlen : as.length = ts.length)
+    (hargs : ∀ (i : Nat) (h1 : i < as.length) (h2 : i < ts.length), Canon d as[i] ts[i]) (f : Nat) :
+    (parseTerm po (3 * (d + 1) + 3 + f) ('[' :: joinArgs as ++ [']']) = .ok (listOf ts) ∧
+      (Term.show sf (listOf ts)).toList = '[' :: joinArgs as ++ [']']) ∧
+    ∀ name, Word name →
+      (parseTerm po (3 * (d + 1) + 3 + f) ('[' :: tailInner as name ++ [']']) = .ok (tailListOf (.var 0 (str ('$' :: name))) ts) ∧
+        (Term.show sf (tailListOf (.var 0 (str ('$' :: name))) ts)).toList = '[' :: tailInner as name ++ [']']) := by
+  refine ⟨⟨parse_canon po hα (Canon.list d as ts hne hlen hargs) f, show_canon sf (Canon.list d as ts hne hlen hargs)⟩, ?_⟩
+  intro name hn
+  exact ⟨parse_canon po hα (Canon.tlist d as ts name hne hlen hargs hn) f, show_canon sf (Canon.tlist d as ts name hne hlen hargs hn)⟩
 
 /-- non-vacuity: `loves(Ann, friend($X, -42))` is canonical, two levels deep -/
 example : Canon 2 "loves(Ann, friend($X, -42))".toList
@@ -103,6 +120,27 @@ example : Canon 2 "loves(Ann, friend($X, -42))".toList
       match i, h1, h2 with
       | 0, _, _ => exact Canon.word 1 "Ann".toList ⟨by decide, by decide⟩
       | 1, _, _ => exact inner)
+    (by decide) (by decide)
+
+/-- non-vacuity: `route([New York, [], $_ | $Rest])` — a complex term holding a list with a tail variable whose elements are an
+    atom with a blank, the empty list and the anonymous variable -/
+example : Canon 2 "route([New York, [], $_ | $Rest])".toList
+    (.cplx (.cons (.atom "route") (.cons (tailListOf (.var 0 "$Rest") [.atom "New York", Term.empty, .anon]) .nil))) := by
+  have inner : Canon 1 "[New York, [], $_ | $Rest]".toList (tailListOf (.var 0 "$Rest") [.atom "New York", Term.empty, .anon]) :=
+    Canon.tlist 0 ["New York".toList, "[]".toList, "$_".toList] [.atom "New York", Term.empty, .anon] "Rest".toList (by simp) rfl
+      (by
+        intro i h1 h2
+        match i, h1, h2 with
+        | 0, _, _ => exact Canon.phrase 0 "New York".toList ⟨by decide, ⟨'N', "ew York".toList, rfl, by decide⟩, by decide⟩
+        | 1, _, _ => exact Canon.elist 0
+        | 2, _, _ => exact Canon.anon 0)
+      ⟨by decide, by decide⟩
+  exact Canon.cplx 1 "route".toList ["[New York, [], $_ | $Rest]".toList] [tailListOf (.var 0 "$Rest") [.atom "New York", Term.empty, .anon]]
+    ⟨by decide, by decide⟩ (by simp) rfl
+    (by
+      intro i h1 h2
+      match i, h1, h2 with
+      | 0, _, _ => exact inner)
     (by decide) (by decide)
 
 /-- non-vacuity: the smallest and the largest i64 -/
